@@ -86,6 +86,10 @@ func (m *Manager) AddDependency(name string, dependsOn ...string) error {
 			return fmt.Errorf("no such module: %s", newDep)
 		}
 
+		if newDep == name {
+			return fmt.Errorf("found a circular dependency: %s depends on itself", name)
+		}
+
 		for _, prevDep := range m.DependenciesForModule(newDep) {
 			if prevDep == name {
 				return fmt.Errorf("found a circular dependency: %s depends on %s", newDep, name)
